@@ -91,6 +91,8 @@ from .packets import (
 )
 from .tag import Tag
 
+EMBEDDED_SERVICE_ERROR = 0x1E  # general status of a multi-service reply when an embedded service failed
+
 AtomicValueType = Union[int, float, bool, str]
 TagValueType = Union[AtomicValueType, List[AtomicValueType], Dict[str, "TagValueType"]]
 ReadWriteReturnType = Union[Tag, List[Tag]]
@@ -1367,6 +1369,15 @@ class LogixDriver(CIPDriver):
                         )
                     else:
                         results[request.request_id] = Tag(request.tag, None, None, response.error)
+                elif (
+                    len(response.responses) != len(request.requests)
+                    or response.command_status != SUCCESS
+                    or response.service_status not in (SUCCESS, EMBEDDED_SERVICE_ERROR)
+                ):
+                    # the reply as a whole failed or is unusable, so did every request in the packet
+                    _error = response.error or "Invalid multi-service reply"
+                    for req in request.requests:
+                        results[req.request_id] = Tag(req.tag, None, None, _error)
                 else:
                     for resp in response.responses:
                         req = resp.request
